@@ -47,6 +47,22 @@ func (r *resendContext) later(msg MessagePlaintext, opaque ...interface{}) {
 	r.messages.m = append(r.messages.m, messageToResend{makeCopy(msg), opaque})
 }
 
+// last remembers msg as the only message that may still be retransmitted,
+// replacing whatever was remembered or queued before
+func (r *resendContext) last(msg MessagePlaintext) {
+	if r.retransmitting {
+		return
+	}
+
+	r.messages.Lock()
+	defer r.messages.Unlock()
+
+	for _, old := range r.messages.m {
+		wipeBytes(old.m)
+	}
+	r.messages.m = append(make([]messageToResend, 0, 5), messageToResend{makeCopy(msg), nil})
+}
+
 func (r *resendContext) pending() []messageToResend {
 	r.messages.RLock()
 	defer r.messages.RUnlock()
